@@ -58,6 +58,10 @@ CLAIMED = {
           "Generated-input search over timing (par/seq, begin/dur/end, every time syntax, frame/tick rates), styling (style graphs, nested, initial, set), white space, ruby, and a corruption pass (malformed or unknown attributes must be ignored, logged and leave the rest unchanged).",
           "Trusted: vt/gen_ttml.py to_docspec() (my reading of TTML2 12 / 10.4, self-tested) and vt/ref_isd.py. Known finding R-8 (unknown attributes not logged). Structural generation is driven by a Hypothesis-drawn seed (see module docstring).",
           "DESIGN.md C04"),
+  "C09": ("Hypothesis byte-level STL files assembled from structured GSI/TTI descriptions with the expected subtitles built alongside; exhaustive enumeration of the asserted character-table cells",
+          "Generated-input search over DFC/DSC/CCT, extension chains, cumulative sets, user-data and comment blocks, programme start and reader configurations: exact rational times, word-level text, per-character colours/italic/underline, justification, region anchoring; every asserted cell of the five character tables enumerated.",
+          "Trusted: vt/gen_stl.py assemble()/expected() (self-tested byte-exactly against a bundled file) with independently written ISO 6937 / 8859 tables; contested code points are not asserted; geometry asserted as containment + anchored edge.",
+          "DESIGN.md C09"),
 }
 NOT_APPLICABLE = {}
 
